@@ -45,8 +45,10 @@ func VerifGenUploadStack() {
 	called := false
 	readErr := error(nil)
 	got, gotNote := "", ""
+	var bound *http.Request
 	api.PostUploadHandler = operations.PostUploadHandlerFunc(func(p operations.PostUploadParams) middleware.Responder {
 		called = true
+		bound = p.HTTPRequest
 		if p.Doc != nil {
 			b, err := io.ReadAll(p.Doc)
 			got, readErr = string(b), err
@@ -70,6 +72,9 @@ func VerifGenUploadStack() {
 	req.ContentLength = int64(len(body))
 	rec := &vRec{h: http.Header{}}
 	h.ServeHTTP(rec, req)
+	if bound != nil && bound.MultipartForm != nil {
+		_ = bound.MultipartForm.RemoveAll() // the temporary files of the parser (natively: real ones)
+	}
 	vCover("served")
 	vAssert(called == withDoc, "the handler is reached exactly by uploads that carry the required file part")
 	if !called {
